@@ -100,6 +100,7 @@ structure St where
   elapsed : Nat := 0                       -- duration of the asynchronous phase
   initDone : Bool := false                 -- `_init_done.set()` was reached
   firstPassDone : Bool := false
+  cout : List Val := []                    -- outputs of the combinational blocks after the first pass
   deriving Inhabited
 
 def upd {α : Type} (f : Nat → α) (b : Nat) (x : α) : Nat → α := fun i => if i = b then x else f i
@@ -127,10 +128,25 @@ def setSteps (s : St) (b : Nat) (k : Int) : St := { s with steps := upd s.steps 
 def setActive (s : St) (b : Nat) (x : Bool) : St := { s with active := upd s.active b x }
 end St
 
+/-- a combinational block in the first evaluation pass: what its `calc_output()` does -/
+inductive CScript where
+  | returns (v : Val)     -- `v` may be UNDEF: `eval_block` then raises ValueError("Output value must not be <UNDEF>")
+  | raises
+  deriving DecidableEq, Repr, Inhabited
+
+/-- `CBlock.eval_block` fails: the function raised, or the UNDEF check (BEFORE the `previous == value` fast path) -/
+def CScript.fails : CScript → Bool
+  | .raises => true
+  | .returns v => v.isUndef
+
+def CScript.value : CScript → Val
+  | .returns v => v
+  | .raises => .undef
+
 structure Cfg where
   n : Nat
   blk : Nat → Blk
-  cblocks : List Bool := []          -- first evaluation pass: `true` = that block's function raises
+  cblocks : List CScript := []       -- the combinational blocks evaluated in the first pass
   fuel : Nat := 0
 
 inductive Call where
@@ -345,7 +361,8 @@ def check (c : Cfg) (s : St) : St :=
 def firstPass (c : Cfg) (s : St) : St :=
   if !s.ok then s else
   let s := { s with initDone := true }
-  if c.cblocks.any id then s.raise .firstPass else { s with firstPassDone := true }
+  if c.cblocks.any CScript.fails then s.raise .firstPass
+  else { s with firstPassDone := true, cout := c.cblocks.map CScript.value }
 
 def init : St := {}
 
